@@ -83,6 +83,34 @@ pub fn read_message(msg: &str) -> Result<Parsed, String> {
     Ok(Parsed { quoted, description })
 }
 
+/// Single-case verdict for replays: None when the text compiles; Err(reason) when the message is wrong.
+pub fn verdict(text: &str) -> Option<Result<(), String>> {
+    let err = match drive::guard(|| simfony::TemplateProgram::new(text).map(|_| ())) {
+        Ok(Err(e)) => e,
+        _ => return None,
+    };
+    let src = source_lines(text);
+    let p = match read_message(&err) {
+        Ok(p) => p,
+        Err(why) => return Some(Err(format!("shape: {why}"))),
+    };
+    if p.description.trim().is_empty() {
+        return Some(Err("empty description".into()));
+    }
+    for (k, (n, t)) in p.quoted.iter().enumerate() {
+        if *n == 0 || *n > src.len() {
+            return Some(Err(format!("line {n} outside the file")));
+        }
+        if src[*n - 1] != t {
+            return Some(Err(format!("line {n} quoted as {t:?}, source has {:?}", src[*n - 1])));
+        }
+        if k > 0 && p.quoted[k - 1].0 + 1 != *n {
+            return Some(Err("line numbers not consecutive".into()));
+        }
+    }
+    Some(Ok(()))
+}
+
 /// Judge one text: if compilation fails, the message must quote its lines verbatim.
 pub fn judge(rep: &Report, text: &str, origin: &str) {
     if text.is_empty() {
